@@ -399,6 +399,13 @@ static json::Value exprJ(const Expr *E0) {
     o["lt"] = "string";
     return std::move(o);
   }
+  if (isa<PredefinedExpr>(E)) {
+    // __func__ / __PRETTY_FUNCTION__ (the assert macro passes it on): a string constant
+    o["k"] = "lit";
+    o["v"] = "__func__";
+    o["lt"] = "string";
+    return std::move(o);
+  }
   if (const auto *X = dyn_cast<SubstNonTypeTemplateParmExpr>(E)) {
     json::Value inner = exprJ(X->getReplacement());
     if (json::Object *io = inner.getAsObject()) {
